@@ -230,6 +230,17 @@ fn incremental(h: &[u8], front: &str, bases: &Bases) -> Option<(String, String, 
                 return Some((format!("C05:incremental-complete-not-accepted:{}", front), format!("after offering every strict prefix to the same object, the complete head ({} bytes) is not returned as a response consuming {} bytes: got {:?} / {:?}", h.len(), h.len(), resp_n, is_err), p));
             }
         }
+        // the complete head offered again and again to the same object: the same answer every time
+        for round in 0..8 {
+            let again: Result<Option<usize>, String> = if let Some(f) = flow.as_mut() {
+                f.try_response(h).map(|(n, r)| r.map(|_| n)).map_err(|e| format!("{:?}", e))
+            } else {
+                call.as_mut().unwrap().try_response(h).map(|r| r.map(|(n, _)| n)).map_err(|e| format!("{:?}", e))
+            };
+            if again != Ok(Some(h.len())) {
+                return Some((format!("C05:repeated-complete-offer:{}", front), format!("the complete head offered once more (repetition {}) to the object that had returned it: {:?} instead of a response consuming {} bytes", round + 1, again, h.len()), h.len()));
+            }
+        }
         None
     });
     match r {
